@@ -18,6 +18,9 @@ SHAPES = {
     "sleep": "sleep 30",
     "busy": "while :; do :; done",
     "noint": "sh -c \"trap '' INT; while :; do :; done\"",
+    # (binary only) ignores SIGINT and would leave a mark 4 s after its start: it must have been killed (2 s after the timeout) before that,
+    # also when taskctl itself has ended in the meantime
+    "orphan": "sh -c \"trap '' INT; sleep 4 >/dev/null 2>&1; echo orphan >> $PROJ/orphan\"",
 }
 GRACE_MS = 2000
 SLACK_MS = 2500
@@ -41,7 +44,7 @@ def gen_cases(ctx):
         d.update(kw)
         cases.append(d)
 
-    shapes = list(SHAPES)
+    shapes = [x for x in SHAPES if x != "orphan"]
     # an overrunning command at every position of 1..3 commands, every shape, allow_failure on/off, timeouts 100 ms..1 s
     for ncmds in (1, 2, 3):
         for pos in range(ncmds):
@@ -112,6 +115,9 @@ def cli_cases(ctx):
     for form, ms in forms:
         cases.append({"kind": "cli-forms", "mode": "direct", "form": form, "timeout_ms": ms, "cond": None, "before": [], "jobs": [[dict(early), {"dur": "sleep", "exit": 0}]], "after": [],
                       "allow": False})
+    for mode in ("direct", "run-task", "stage"):
+        cases.append({"kind": "cli-orphan", "mode": mode, "form": "300ms", "timeout_ms": 300, "cond": None, "before": [], "jobs": [[dict(early), {"dur": "orphan", "exit": 0}]], "after": [],
+                      "allow": False})
     for mode in ("direct", "stage"):
         cases.append({"kind": "cli-hook-overrun", "mode": mode, "form": "250ms", "timeout_ms": 250, "cond": None, "before": [{"dur": "sleep", "exit": 0}], "jobs": [[dict(early)]], "after": [dict(early)],
                       "allow": False})
@@ -128,7 +134,11 @@ def cli_job(c, jid):
     doc = {"tasks": {"t": t, "first": {"command": ["true"]}},
            "pipelines": {"p": [{"task": "t"}], "po": [{"task": "t", "env": {"SOME": "x"}, "variables": {"v": "1"}}], "outer": [{"pipeline": "p", "name": "inner"}]}}
     argv = {"direct": ["t"], "stage": ["p"], "stage-overrides": ["po"], "nested": ["outer"], "second-target": ["first", "t"], "run-task": ["run", "task", "t"]}[c["mode"]]
-    return {"id": jid, "files": {"cfg.json": clilib.jcfg(doc)}, "argv": ["-c", "cfg.json", "--raw"] + argv, "keep": ["out"], "timeout": 40}
+    j = {"id": jid, "files": {"cfg.json": clilib.jcfg(doc)}, "argv": ["-c", "cfg.json", "--raw"] + argv, "keep": ["out"], "timeout": 40}
+    if c["kind"] == "cli-orphan":
+        j["keep"] = ["out", "orphan"]
+        j["linger"] = 6
+    return j
 
 
 def judge_cli(ctx, cases, res):
@@ -141,6 +151,8 @@ def judge_cli(ctx, cases, res):
         if r["timeout"] or clilib.crashed(r):
             info[k]["hung"] = True
             continue
+        if r["files"].get("orphan"):
+            info[k]["orphan"] = True
         try:
             tr = vlib.clist(info[k]["trace"], tasklib.parse_tok)
         except ValueError as e:
@@ -277,6 +289,8 @@ def run(ctx):
             i = cinfo.get(k, {})
             if "hung" in i:
                 res.violations.append({"class": None, "what": "taskctl crashed or did not end although the configuration file gives the task a timeout", "case": c, "observed": i})
+            elif "orphan" in i:
+                res.violations.append({"class": None, "what": "a command still running when the timeout expired was never terminated: it went on after taskctl had ended", "case": c, "observed": i})
             elif "unparsable" in i:
                 res.mismatches.append({"what": "unparsable trace", "case": c, "observed": i})
         for key in ("BAD_TIME", "BAD_TRACE", "BAD_STATUS"):
